@@ -67,3 +67,9 @@ Theorem C12_tie_enabled_atoms :
   Gen.g_rlfq_dropout_enabled.g_rlfq_dropout_enabled_atoms = ["num_quantizers_gt_1"; "quantize_dropout"]%string /\
   Gen.g_rsvq_dropout_enabled.g_rsvq_dropout_enabled_atoms = ["num_quantizers_gt_1"; "quantize_dropout"]%string.
 Proof. exact glue_dropout_enabled_atoms. Qed.
+
+(* the whole-function source footprint of this property is the pinned one (Gen/fp_C12.v is regenerated from /repo on every run) *)
+From VQ Require Import Glue.Pin_fp_C12.
+Theorem C12_tie_source_footprint : fp_C12.fp_C12 = pinned_fp_C12.
+Proof. exact pin_fp_C12. Qed.
+Print Assumptions C12_tie_source_footprint.
